@@ -345,7 +345,7 @@ type progCase struct {
 	V1     string `json:"v1"`
 	T1     string `json:"t1"`     // trailer of the outer contract
 	Target string `json:"target"` // leaf name, plain target name, or "M"
-	Rep    int    `json:"rep"`    // depth 1: the outer action is performed once or twice in a row
+	Rep    int    `json:"rep"`    // depth 1: the outer action is performed once, twice or three times in a row
 	A2     string `json:"a2,omitempty"`
 	V2     string `json:"v2,omitempty"`
 	T2     string `json:"t2,omitempty"`
@@ -354,8 +354,8 @@ type progCase struct {
 
 func (p progCase) String() string {
 	s := fmt.Sprintf("%s:%s,txval=%d,A:%s(%s)->%s", p.Level, epochs[p.Epoch].name, p.TxVal, p.A1, p.V1, p.Target)
-	if p.Rep == 2 {
-		s += " twice"
+	if p.Rep >= 2 {
+		s += fmt.Sprintf(" x%d", p.Rep)
 	}
 	s += ";" + p.T1
 	if p.Target == "M" {
@@ -404,8 +404,11 @@ func (p progCase) codes() (a, m []byte, ok bool) {
 		return nil, nil, false
 	}
 	body := actionCode(p.A1, p.V1, ta, init)
-	if p.Rep == 2 {
-		body += "50" + body
+	if p.Rep >= 2 {
+		one := body
+		for k := 1; k < p.Rep; k++ {
+			body += "50" + one
+		}
 	}
 	return contractCode(body, p.T1), m, true
 }
@@ -507,8 +510,8 @@ func evalProg(x *ctx, p progCase) *verdict {
 		sd = "sd-reverted"
 	}
 	tgt := p.Target
-	if p.Rep == 2 {
-		tgt += "x2"
+	if p.Rep >= 2 {
+		tgt += fmt.Sprintf("x%d", p.Rep)
 	}
 	if p.Target == "M" {
 		tgt = "M/" + p.A2 + "/" + p.Leaf2
@@ -559,6 +562,7 @@ func enumProgs(thorough bool) []progCase {
 							for _, tg := range targetsOf(a1) {
 								out = append(out, progCase{Level: level, Epoch: e, TxVal: tv, A1: a1, V1: v1, T1: t1, Target: tg, Rep: 1})
 								out = append(out, progCase{Level: level, Epoch: e, TxVal: tv, A1: a1, V1: v1, T1: t1, Target: tg, Rep: 2})
+								out = append(out, progCase{Level: level, Epoch: e, TxVal: tv, A1: a1, V1: v1, T1: t1, Target: tg, Rep: 3})
 							}
 							// depth 2 through the middle contract
 							if a1 == "CREATE" || level == "block" && !thorough {
@@ -887,8 +891,8 @@ func progDetail(p progCase) map[string]interface{} {
 
 func progCaseID(p progCase) string {
 	id := fmt.Sprintf("%s/%s->%s", epochs[p.Epoch].name, p.A1, p.Target)
-	if p.Rep == 2 {
-		id += "x2"
+	if p.Rep >= 2 {
+		id += fmt.Sprintf("x%d", p.Rep)
 	}
 	if p.Target == "M" {
 		id += fmt.Sprintf("/%s->%s", p.A2, p.Leaf2)
